@@ -1,4 +1,5 @@
 import Proofs.Marks
+import Proofs.DynMarks
 /-!
 # C06 — value marks propagate to everything they influence (expression evaluation)
 
@@ -324,5 +325,65 @@ theorem T_cond_mark_position : ¬ NoninterferenceFull (fun _ => none) := by
   rw [show (strictCx fun _ => none).keepDropped = true from rfl,
     evalCond_lit true _ _ .num _ rfl (conv_null _ (by simp))]
   rfl
+
+/-! ## Dynamic blocks (`ext/dynblock`): where the marks of a `for_each` collection go
+
+On the model of `dynblock.Expand` (`HclModel/Dyn/Expand.lean`, tied to the code by the `EXPAND`
+correspondence, which compares the marks of every attribute value and the value marks of every body). -/
+
+namespace Dyn
+
+/-- Every block that a `dynamic` block stands for — one per element of a known collection, or the single
+    placeholder of an unknown one — carries the flags of the `for_each` value as its value marks
+    (`BodyValueMarks`, which the decoder applies to the block's decoded value). -/
+theorem dyn_blocks_carry_foreach_marks (ev : Env → Expr → Out) (ρf : Env) (its : Iters) (lc : Nat) (type : String)
+    (fe : Expr) (itn : Option String) (labels : Option (List Expr)) (content : SBody) :
+    ∀ blk ∈ (expandDyn ev ρf its lc type fe itn labels content).1,
+      blk.body.bodyMarks = (ev (iterEnv its ++ ρf) fe).1.fl :=
+  Proofs.expandDyn_marks ev ρf its lc type fe itn labels content
+
+/-- Every attribute such a body hands out is wrapped with the body's value marks … -/
+theorem dyn_attrs_carry_body_marks (ev : Env → Expr → Out) (ρf : Env) (b : XBody) (s : Body.Schema) (pm : Bool) :
+    ∀ p ∈ (b.contentCore ev ρf s pm).1.attrs,
+      p.2.marks = (match b.unknown with | some um => um | none => b.marks) :=
+  Proofs.contentCore_attr_marks ev ρf b s pm
+
+/-- … and its value carries them **whatever the expression evaluates to**: a constant, a null, an unknown,
+    a value that does not mention the iterator, even when evaluation reports errors.  (This is what makes
+    consumers safe that build a value from the attribute values alone: `hcldec.BlockSpec`, `gohcl`, direct use
+    of `Content`.) -/
+theorem dyn_attr_value_marked (ev : Env → Expr → Out) (ρ : Env) (a : XAttr) (h : a.marks.m = true) :
+    (a.value ev ρ).1.isMarked = true :=
+  Proofs.attr_value_marked ev ρ a h
+
+/-- Put together: with a marked `for_each`, every attribute value of every generated block is marked. -/
+theorem dyn_marked_foreach_marks_every_attribute (ev : Env → Expr → Out) (ρf ρ : Env) (its : Iters) (lc : Nat)
+    (type : String) (fe : Expr) (itn : Option String) (labels : Option (List Expr)) (content : SBody)
+    (s : Body.Schema) (pm : Bool)
+    (hm : (ev (iterEnv its ++ ρf) fe).1.isMarked = true) :
+    ∀ blk ∈ (expandDyn ev ρf its lc type fe itn labels content).1, blk.body.unknown = none →
+      ∀ p ∈ (blk.body.contentCore ev ρf s pm).1.attrs, (p.2.value ev ρ).1.isMarked = true := by
+  intro blk hb hu p hp
+  apply Proofs.attr_value_marked
+  have h1 := Proofs.contentCore_attr_marks ev ρf blk.body s pm p hp
+  rw [hu] at h1
+  have h2 := Proofs.expandDyn_marks ev ρf its lc type fe itn labels content blk hb
+  rw [h1, h2]
+  exact hm
+
+/-- What is NOT carried (observation, not a finding of the oracles): a *static* block nested in a generated
+    block starts again with empty value marks — its attributes are not wrapped with the collection's marks.
+    The decoder still marks the enclosing generated block's value as a whole (`BodyValueMarks`). -/
+theorem dyn_static_nested_block_unmarked :
+    let ev : Env → Expr → Out := fun _ _ => (Val.str Fl.none "fixed", [])
+    let inner : SBody := .mk [("y", .lit (.str Fl.none "fixed"))] []
+    let generated : XBody := { src := .mk [] [.static "sub" [] inner], marks := ⟨true, true⟩ }
+    let c := (generated.contentCore ev [] ⟨[], [⟨"sub", 0⟩]⟩ false).1
+    c.blocks.map (fun b => b.body.bodyMarks.m) = [false] ∧
+    (c.blocks.flatMap fun b => (b.body.contentCore ev [] ⟨[⟨"y", false⟩], []⟩ false).1.attrs.map
+        fun p => (p.2.value ev []).1.isMarked) = [false] := by
+  decide
+
+end Dyn
 
 end HclModel
